@@ -348,6 +348,13 @@ def const_collection(A, func, node):
         return [e.value for e in node.elts]
     if isinstance(node, ast.Dict) and node.keys and all(isinstance(k, ast.Constant) and isinstance(v, ast.Constant) for k, v in zip(node.keys, node.values)):
         return {k.value: v.value for k, v in zip(node.keys, node.values)}
+    if isinstance(node, ast.Call) and not node.keywords and len(node.args) == 1 and isinstance(node.func, ast.Name) \
+            and node.func.id in ("list", "tuple"):
+        t = const_collection(A, func, node.args[0])
+        return list(t) if t is not None else None
+    if isinstance(node, ast.Call) and not node.args and isinstance(node.func, ast.Attribute) and node.func.attr == "keys":
+        t = const_collection(A, func, node.func.value)
+        return list(t) if isinstance(t, dict) else None
     if isinstance(node, ast.Name):
         f = func
         while f is not None:
@@ -379,6 +386,19 @@ def find_translation_table(A):
                     cands.append(t)
     cands = [t for t in cands if all(isinstance(v, str) for v in t.values())]
     return (sda, cands[0]) if cands else (sda, None)
+
+
+def find_yaml_default_list(A):
+    """the default algorithm list _build_hashstore_yaml_string writes to hashstore.yaml"""
+    b = A.p.func(Q("_build_hashstore_yaml_string"))
+    for n in ast.walk(b.node):
+        if isinstance(n, ast.Dict):
+            for k, v in zip(n.keys, n.values):
+                if isinstance(k, ast.Constant) and k.value == "store_default_algo_list":
+                    t = const_collection(A, b, v)
+                    if isinstance(t, list):
+                        return t
+    return None
 
 
 def find_accepted_algorithms(A):
@@ -488,12 +508,7 @@ def check_C02(A: Analysis, tier):
     if not trans:
         raise AnalysisError("_set_default_algorithms: translation table not found")
     b = A.p.func(Q("_build_hashstore_yaml_string"))
-    ylist = None
-    for n in ast.walk(b.node):
-        if isinstance(n, ast.Dict):
-            for k, v in zip(n.keys, n.values):
-                if isinstance(k, ast.Constant) and k.value == "store_default_algo_list" and isinstance(v, ast.List):
-                    ylist = [e.value for e in v.elts]
+    ylist = find_yaml_default_list(A)
     if ylist is None:
         raise AnalysisError("_build_hashstore_yaml_string: store_default_algo_list not found")
     other = [e.value for e in A.p.class_attr_assigns(CLS)["other_algo_list"].elts]
@@ -962,6 +977,29 @@ def check_C13(A: Analysis, tier):
     rh.inst(f"{nfin} finally block(s) in filehashstore.py")
     rules.append(rh)
 
+    ri = Rule("C13", "C13.i", "while an error is being handled, a storing call removes permanent files only where it undoes its own step: the tagging "
+              "roll-back (this pid's reference, its line in the cid list) and the failed publishing move; delete_if_invalid_object only on its two verdicts", floor=4)
+    for e in ("store_object", "tag_object", "store_metadata", "delete_if_invalid_object"):
+        for m in ALL_MODES:
+            it = A.api(e, m)
+            for ev in it.events:
+                if not ev.handling or ev.kind not in ("RENAME", "REMOVE"):
+                    continue
+                cls = {c.cls for c in primary(ev.classes[0])} & {"OBJ", "CIDREFS", "PIDREFS", "META"}
+                if not cls:
+                    continue
+                ri.ob()
+                ri.inst(f"{e}: {site_func(ev)}: `{site_text(ev)[:50]}` {sorted(cls)}")
+                ok = (Q("_untag_object") in ev.ctx and cls <= {"PIDREFS", "CIDREFS"}) \
+                    or (Q("_move_and_get_checksums") in ev.ctx and cls == {"OBJ"}) \
+                    or (e == "delete_if_invalid_object" and Q("_delete_object_only") in ev.ctx and cls == {"OBJ"}
+                        and ev.handling[-1] in ("NonMatchingObjSize", "NonMatchingChecksum"))
+                if not ok:
+                    ri.fail(site_func(ev), site_text(ev), f"{e} removes a permanent {'/'.join(sorted(cls))} file while handling {ev.handling[-1]}, outside the roll-back of its own "
+                            "step: a failing call may take away what another pid (or a concurrent, not yet tagged store of the same content) relies on",
+                            site_loc(A, ev), {"entry": e, "handling": list(ev.handling)})
+    rules.append(ri)
+
     re_ = Rule("C13", "C13.e", "no call completes normally out of a handler that caught a library (I/O) error, "
                "except through a tabled swallower", floor=8)
     for m in ("th",):
@@ -1028,6 +1066,11 @@ def check_C14(A: Analysis, tier):
                 ra.fail(vp, f"comparison of {k}", f"_verify_hashstore_properties can accept the supplied properties without having established that "
                         f"`{k}` equals the value stored under the same key in hashstore.yaml: a store could be reopened with another {k}",
                         A.p.loc(vp, vp.node))
+            elif any(tag(x) in ("strop", "callres", "slice") for side in hit for t in side for x in subterms(t)):
+                ops = sorted({x[1] for side in hit for t in side for x in subterms(t) if tag(x) == "strop"})
+                ra.fail(vp, f"comparison of {k}", f"`{k}` is compared after a string transformation ({', '.join(map(str, ops)) or 'call'}) of the stored / supplied value, not for "
+                        "equality of the values themselves: a configuration that differs from the pinned one (e.g. in letter case - another namespace, hence "
+                        "other document addresses) is accepted", A.p.loc(vp, vp.node))
             elif k in ("store_depth", "store_width") and not all(tag(t) == "int" for t in hit[0]):
                 ra.fail(vp, f"int({k})", f"`{k}` is compared without integer coercion of the supplied value (an integer-like string would be refused)",
                         A.p.loc(vp, vp.node))
@@ -1134,12 +1177,7 @@ def check_C14(A: Analysis, tier):
     wp, acc, acc_test = find_accepted_algorithms(A)
     sda, trans_d = find_translation_table(A)
     trans = list(trans_d) if trans_d else None
-    ylist = None
-    for n in ast.walk(A.p.func(Q("_build_hashstore_yaml_string")).node):
-        if isinstance(n, ast.Dict):
-            for k, v in zip(n.keys, n.values):
-                if isinstance(k, ast.Constant) and k.value == "store_default_algo_list" and isinstance(v, ast.List):
-                    ylist = [e.value for e in v.elts]
+    ylist = find_yaml_default_list(A)
     re_.inst(f"accepted {acc}")
     re_.inst(f"translation keys {trans}")
     re_.inst(f"yaml default list {ylist}")
@@ -1238,6 +1276,31 @@ def check_C17(A: Analysis, tier):
                     if not any(f_[0] == "isinstance" and pol is True for f_, pol in ev.facts):
                         ra.fail(site_func(ev), site_text(ev), "delete_if_invalid_object can delete before object_metadata's type was checked", site_loc(A, ev))
     rules += [ra, rb]
+
+    rf17 = Rule("C17", "C17.f", "an algorithm name the caller supplies has passed the support check (_clean_algorithm) before store_object's first "
+                "state change: an unsupported name is rejected while the store is still untouched", floor=2)
+
+    def algorithms_given(atom):
+        if atom[0] == "isnone" and atom[1] in (V(P("additional_algorithm")), V(P("checksum_algorithm")), V(P("checksum")), V(P("pid"))):
+            return False
+        if atom[0] == "cmp" and atom[1] in ("==", "!=") and V(P("additional_algorithm")) in atom[2:4] and V(("selfattr", "algorithm")) in atom[2:4]:
+            return atom[1] == "!="
+        return None
+
+    for m in ALL_MODES:
+        it_g = A.run(Q("store_object"), m, tagk="algorithms-given", assume=algorithms_given)
+        nev = 0
+        for ev in it_g.events:
+            if ev.kind not in MUT and ev.kind != "MKDIR":
+                continue
+            nev += 1
+            rf17.ob()
+            for p_ in ("additional_algorithm", "checksum_algorithm"):
+                if not any(len(d) == 4 and d[0] == "argof" and d[1] == Q("_clean_algorithm") and d[3] == P(p_) for d in ev.done):
+                    rf17.fail(site_func(ev), site_text(ev), f"store_object changes the store ({ev.kind}) on a path on which the supplied `{p_}` has not yet passed "
+                              "_clean_algorithm: an unsupported name is rejected only after files were created", site_loc(A, ev), {"param": p_})
+        rf17.inst(f"store_object [{m}] with both algorithm names given: {nev} state-changing primitive(s)")
+    rules.append(rf17)
 
     rc = Rule("C17", "C17.c", "the checkers test what is documented: _check_string None/blank/whitespace; "
               "_check_integer type and < 1; _check_arg_data the three accepted types and the empty string", floor=3)
